@@ -188,6 +188,9 @@ func parseGlyphVariationSerializedData(data []byte, hasSharedPoints bool, pointN
 			return errors.New("invalid glyph variation serialized data (EOF)")
 		}
 		nextData := data[h.VariationDataSize:]
+		// the private point numbers and the deltas of a tuple are read in its own data,
+		// not up to the end of the glyph data (which the other tuples share)
+		data = data[:h.VariationDataSize]
 
 		// default to shared points
 		privatePointNumbers := sharedPointNumbers
